@@ -7,6 +7,10 @@ CHECKS = {
    text="Every reachable paging state (256 raw latch states, 64 K transitions per ROM configuration) is reached by CPU-executed OUTs on a fresh real Emulator and compared with a reference memory map at all 65536 addresses, with CPU store/load probes and an all-banks RAM diff; exhaustive over the latch, so the only thing left out is RAM contents other than the position-coded markers.",
    note="Trusts the cfg-guarded read-only accessors (verif_paging, verif_ram_bank) and execute_poke for placing marker bytes and probe code."),
 }
+CHECKS["C11"]=dict(level="model_checking", ref="§C11",
+   technique="explicit-state search over all partitions of elapsed time into tape steps 0..16 on the real Tap, decomposed at reload events, judged by an independent pulse decoder",
+   text="For each tape image every reachable state of the real tape state machine under every partition of time into process_clocks steps of 0..16 T is visited (tens of millions of states per run); on every edge transition the pulse must be the one the reference waveform expects and last between nominal and nominal+32 T, and the pulse list must decode (independent decoder) to exactly the TAP blocks with the stated pilot counts. Exhaustive over schedules for the listed tapes; tapes themselves are a small alphabet.",
+   note="Trusts hook H3 (Tap: Clone + verif_state). Decomposition at reload events is re-validated on every exit transition (state must equal the pre-pass state).")
 NOT_YET = {
 }
 def main():
